@@ -131,6 +131,10 @@ def c20_program(ks, repeat_lens):
     w("fn es(i: i64) -> String { EV.with(|v| v.borrow_mut().push(i)); (1000 + i).to_string() }")
     w("fn take() -> Vec<i64> { EV.with(|v| std::mem::take(&mut *v.borrow_mut())) }")
     w("fn nums(s: &[String]) -> Vec<i64> { s.iter().map(|x| x.parse().unwrap()).collect() }")
+    w("thread_local! { static ZD: std::cell::Cell<i64> = std::cell::Cell::new(0); }")
+    w("#[derive(Clone)] struct Zd; impl Drop for Zd { fn drop(&mut self) { ZD.with(|c| c.set(c.get() + 1)); } }")
+    w("fn zd() -> i64 { ZD.with(|c| c.replace(0)) }")
+    w('fn zrec(form: &str, k: usize, len: usize, while_alive: i64, after: i64) { println!("{{\\"ev\\":\\"macro_zst\\",\\"form\\":\\"{}\\",\\"k\\":{},\\"len\\":{},\\"while_alive\\":{},\\"after\\":{}}}", form, k, len, while_alive, after); }')
     w('fn rec(form: &str, k: usize, evals: &[i64], items: &[i64], len: usize, bevals: &[i64], bitems: &[i64], blen: usize) {')
     w('    println!("{{\\"ev\\":\\"macro\\",\\"form\\":\\"{}\\",\\"k\\":{},\\"evals\\":{:?},\\"items\\":{:?},\\"len\\":{},\\"bevals\\":{:?},\\"bitems\\":{:?},\\"blen\\":{}}}", form, k, evals, items, len, bevals, bitems, blen);')
     w("}")
@@ -151,6 +155,12 @@ def c20_program(ks, repeat_lens):
             clist = ", ".join(str(1000 + i) for i in range(k))
             consts.append("const CL_%d: GenericArray<i64, U%d> = arr![%s];" % (k, k, clist))
             main.append("    rec(\"const_list\", %d, &[], CL_%d.as_slice(), CL_%d.len(), &[], CL_%d.as_slice(), CL_%d.len());" % (k, k, k, k, k))
+    for k in [x for x in ks if x <= 17]:
+        # zero-sized elements with a destructor: none may be dropped while the array is alive, all k afterwards
+        zl = ", ".join("Zd" for _ in range(k))
+        main.append("    { zd(); let a: GenericArray<Zd, U%d> = arr![%s]; let l = a.len(); let alive = zd(); drop(a); zrec(\"arr_list_zst\", %d, l, alive, zd()); }" % (k, zl, k))
+        main.append("    { zd(); let b: Box<GenericArray<Zd, U%d>> = box_arr![%s]; let l = b.len(); let alive = zd(); drop(b); zrec(\"box_list_zst\", %d, l, alive, zd()); }" % (k, zl, k))
+        main.append("    { zd(); let b: Box<GenericArray<Zd, U%d>> = box_arr![Zd; U%d]; let l = b.len(); let alive = zd(); drop(b); zrec(\"box_repeat_zst\", %d, l, alive, zd()); }" % (k, k, k))
     for n in repeat_lens:
         # repeat forms: type-level length and constant expression; the element expression is evaluated once
         main.append("    { let a = arr![e(7); U%d]; let ev = take(); let b = box_arr![e(7); U%d]; let bev = take(); rec(\"repeat_ty\", %d, &ev, a.as_slice(), a.len(), &bev, b.as_slice(), b.len()); }" % (n, n, n))
